@@ -219,12 +219,32 @@ def _impl_tsfit(c):
     from pydl.pydlutils.trace import xy2traceset, traceset2xy
     xpos = np.array(c['xpos'], dtype='d').reshape(c['shape'])
     ypos = np.array(c['ypos'], dtype='d').reshape(c['shape'])
+    kw = _ts_kwargs(c)
+    before = {k: v.copy() for k, v in [('xpos', xpos), ('ypos', ypos)] + [(k, kw[k]) for k in ('invvar', 'inmask') if k in kw]}
     try:
-        t = xy2traceset(xpos, ypos, **_ts_kwargs(c))
+        t = xy2traceset(xpos, ypos, **kw)
     except Exception as e:
         return {'err': core.exc_kind(e)}, None
     out = {'coeff': t.coeff.tolist(), 'yfit': t.yfit.tolist(), 'outmask': t.outmask.tolist(),
            'xmin': float(t.xmin), 'xmax': float(t.xmax)}
+    # history: the caller's arrays fitted again (same objects, no mask this time) must give the fit of THOSE arguments -
+    # a call that leaves something of its own mask / weights behind in them shows here
+    cur = {'xpos': xpos, 'ypos': ypos}
+    cur.update({k: kw[k] for k in ('invvar', 'inmask') if k in kw})
+    changed = [k for k in before if not np.array_equal(before[k], cur[k], equal_nan=True)]
+    if changed:
+        out['inputs_changed'] = changed
+        try:
+            kw2 = {k: v for k, v in kw.items() if k != 'inmask'}
+            t2 = xy2traceset(xpos, ypos, **kw2)
+            kw3 = dict(kw2)
+            if 'invvar' in kw3:
+                kw3['invvar'] = before['invvar'].copy()
+            t3 = xy2traceset(before['xpos'].copy(), before['ypos'].copy(), **kw3)
+            if not np.allclose(t2.coeff, t3.coeff, rtol=1e-9, atol=1e-12, equal_nan=True):
+                out['second_call_differs'] = {'same-arrays': t2.coeff.tolist(), 'fresh-arrays': t3.coeff.tolist()}
+        except Exception as e:
+            out['second_call_differs'] = {'err': core.exc_kind(e)}
     try:
         out['xy'] = {'ok': traceset2xy(t, xpos)[1].tolist()}
     except Exception as e:
@@ -398,6 +418,11 @@ def _gen_fit_case(rng, kind=None):
         for i in rng.sample(range(n), nzero):
             w[i] = 0.0
         c['invvar'] = w
+    if c['invvar'] is not None and rng.random() < 0.3:
+        # inverse variances in the units of the data: fluxes of 1e6 have weights of 1e-12 (powers of two: exact rescaling)
+        sc = 2.0 ** rng.choice([-60, -40, -27, 20, 40])
+        c['invvar'] = [v * sc for v in c['invvar']]
+        c['wscale'] = sc
     if rng.random() < 0.4 and ncoeff >= 1:
         ia = [rng.random() < 0.6 for _ in range(ncoeff)]
         if rng.random() < 0.1:
@@ -851,6 +876,12 @@ def _tsfit(ctx, cases, oracle_only=False):
         if 'err' in a['xy']:
             ctx.violate('tsfit:xy-raises:' + a['xy']['err'], 'traceset2xy raised on the fitted trace set', c)
             continue
+        if a.get('inputs_changed'):
+            ctx.count('oracle:tsfit:inputs-changed')
+            if a.get('second_call_differs'):
+                ctx.violate('tsfit:history', 'a second fit of the same arrays without a mask is not the fit of its own arguments: the first call '
+                            'changed the caller\'s %s; %s' % (a['inputs_changed'], str(a['second_call_differs'])[:300]), c)
+                continue
         # converting positions to a trace set and evaluating at the same positions returns the fitted values
         for i in range(n):
             sc = max([1.0] + [abs(v) for v in a['yfit'][i]] + [sum(abs(v) for v in a['coeff'][i])])
